@@ -853,10 +853,8 @@ theorem teardown_inv (w : World) (i : Nat) (s : Sess) (h : WorldPoolInv w) : Wor
   rw [AgentD.teardown_eq]
   have hb := tdBase_inv w i s h
   split
+  · exact wpi_frame (f_sessDelete _ _ _) hb
   · exact hb
-  · split
-    · exact hb
-    · exact wpi_frame (f_sessDelete _ _ _) hb
 
 theorem shutdownSession_inv (w : World) (i : Nat) (sid : String) (h : WorldPoolInv w) :
     WorldPoolInv (w.shutdownSession i sid) := by
